@@ -138,3 +138,13 @@ CLAIMED["C15"] = (
     "credential classes (export/parse/_get_data_to_sign, RoT meta; RoT hash equality with C03), challenge parsing, EdgeLock-enclave v2 responses "
     "and the YAML front end are NOT under contract.",
     "DESIGN.md 7 C15")
+CLAIMED["C14"] = (
+    "BootableImage.get_segment_offset is proved equal to the placement rule of the property — a static segment at its database offset, a "
+    "floating segment at the end of its predecessor aligned up to the floating segment's own alignment, minus the initial offset — for "
+    "three-segment layouts with every static/floating pattern after a static first segment, all offsets, lengths and alignments (1/4/1024) "
+    "symbolic; the data obligations the theorem assumes (first segment static, static offsets strictly increasing, positive alignments) are "
+    "checked exhaustively over every (family, memory type) of the live database. Export/parse of the merged image, gap filling, init_offset "
+    "selection and content-search parsing are NOT decided here (C16 gives the composition theorem they rest on).",
+    "Trusted: A-enc, A-smt; segments are abstract (offset rule, alignment, length). Layouts longer than three segments follow the same recursion "
+    "(not instantiated).",
+    "DESIGN.md 7 C14")
